@@ -50,13 +50,13 @@ var c16e2ReplayAt = []float64{0, 0.25, 0.6, 0.9, 1.6}
 var c16e2Probes = []float64{0, 1.0 / 3, 2.0 / 3, 0.95}
 
 type c16e2Config struct {
-	Kind      string       `json:"kind"`      // plain | chrome115
-	OneWayMs  int          `json:"onewayMs"`  // one-way latency of the path
-	CertMs    int          `json:"certMs"`    // virtual time the server's GetCertificate callback takes
-	Replay    int          `json:"replay"`    // index into c16e2ReplayAt
-	Active    bool         `json:"active"`    // the client sends one byte shortly before every inspection
-	Faults    sim.FaultMap `json:"faults"`    // fates of the first datagrams
-	Seed      uint64       `json:"seed"`
+	Kind     string       `json:"kind"`     // plain | chrome115
+	OneWayMs int          `json:"onewayMs"` // one-way latency of the path
+	CertMs   int          `json:"certMs"`   // virtual time the server's GetCertificate callback takes
+	Replay   int          `json:"replay"`   // index into c16e2ReplayAt
+	Active   bool         `json:"active"`   // the client sends one byte shortly before every inspection
+	Faults   sim.FaultMap `json:"faults"`   // fates of the first datagrams
+	Seed     uint64       `json:"seed"`
 }
 
 func (c c16e2Config) String() string {
